@@ -44,7 +44,7 @@ class PersistentProcessWorker(PersistentWorker, ProcessWorker):
         if not self.is_alive():
             return True
         self.close()
-        self._child.join(timeout)
+        self._join(timeout)
         alive = self._child.is_alive()
         if not alive:
             self._dead = True
